@@ -895,6 +895,116 @@ Section HashMap.
     | HMapVals f => Ok (map (fun kv => (fst kv, f (snd kv))) al, HUnit)
     | HDestroy => Ok ([], HUnit)
     end.
+  (* ---- a hash-free reference ("flat map").  The same record with the chains forgotten: every bucket empty and
+     the next field of every filled node INVALID; the next fields of unfilled nodes (the free list), the node
+     order, the sizes and the free head are kept.  The operations below never call [khash]: a key is looked up by
+     scanning the node array.  ProofsHM7 shows that hashmap.nelua, with any hash function that respects ==, is this
+     flat map exactly - equal results (iteration order included), equal node arrays up to [canon], equal
+     capacity and bucket count. *)
+  Definition canon_node (nd : hnode) : hnode := if nfilled nd then set_next None nd else nd.
+  Definition canon (m : hmap) : hmap :=
+    mkhm (repeat None (length (hbuckets m))) (map canon_node (hnodes m)) (hsize m) (hfree m).
+
+  Fixpoint fm_find_from (key : K) (ns : list hnode) (base : nat) : option nat :=
+    match ns with
+    | [] => None
+    | nd :: tl => if nfilled nd && keqb key (nkey nd) then Some base else fm_find_from key tl (S base)
+    end.
+  Definition fm_find (key : K) (m : hmap) : option nat := fm_find_from key (hnodes m) 0.
+
+  Definition fm_rehash (bucket_count : nat) (m : hmap) : res hmap :=
+    let minb := ceilidiv (hsize m * 100) HM_MAXLF_n in
+    let bc0 := if bucket_count <? minb then minb else bucket_count in
+    let bcz := roundpow2 (Z.of_nat bc0) in
+    if (bcz <? Z.of_nat bc0)%Z then Trap TrapOverflow else
+    let bc := Z.to_nat bcz in
+    let nc0 := ceilidiv (bc * HM_MAXLF_n) 100 in
+    let nc := if (0 <? bc) && (nc0 <=? hsize m) then hsize m + 1 else nc0 in
+    let n0 := length (hnodes m) in
+    let nodes1 := if (nc <? n0) && (0 <? n0) && (0 <? nc) then hm_compact (hnodes m) else hnodes m in
+    let nodes2 := srealloc zero_node nc nodes1 in
+    let (nodes3, fr) := relink_free nodes2 0 in
+    Ok (mkhm (repeat None bc) nodes3 (hsize m) fr).
+  Definition fm_reserve (count : nat) (m : hmap) : res hmap :=
+    let bc := ceilidiv (count * 100) HM_MAXLF_n in
+    if length (hbuckets m) <? bc then fm_rehash bc m else Ok m.
+  Definition fm_insert (key : K) (m : hmap) : res (hmap * nat) :=
+    match hfree m with
+    | None => Trap TrapNoSpace
+    | Some fi =>
+        if length (hnodes m) <=? fi then Trap TrapNoSpace else
+        nd <- sget fi (hnodes m) ;;
+        ns <- sset fi (mknode key vdflt true None) (hnodes m) ;;
+        let sz := hsize m + 1 in
+        let m2 := mkhm (hbuckets m) ns sz (nnext nd) in
+        m3 <- (if length (hbuckets m2) * HM_MAXLF_n <=? sz * 100
+               then fm_rehash (ceilidiv (sz * HM_GROW_n) HM_MAXLF_n) m2 else Ok m2) ;;
+        Ok (m3, fi)
+    end.
+  Definition fm_at (key : K) (m0 : hmap) : res (hmap * nat) :=
+    m <- (if length (hbuckets m0) =? 0 then fm_rehash HM_INIT_n m0 else Ok m0) ;;
+    match fm_find key m with
+    | Some i => Ok (m, i)
+    | None => fm_insert key m
+    end.
+  Definition fm_set (key : K) (v : V) (m : hmap) : res hmap :=
+    p <- fm_at key m ;;
+    let (m1, i) := p in
+    nd <- sget i (hnodes m1) ;;
+    ns <- sset i (set_val v nd) (hnodes m1) ;;
+    Ok (mkhm (hbuckets m1) ns (hsize m1) (hfree m1)).
+  Definition fm_get (key : K) (m : hmap) : res (hmap * V) :=
+    p <- fm_at key m ;;
+    let (m1, i) := p in
+    nd <- sget i (hnodes m1) ;;
+    Ok (m1, nval nd).
+  Definition fm_peek (key : K) (m : hmap) : res (option V) :=
+    match fm_find key m with
+    | Some i => nd <- sget i (hnodes m) ;; Ok (Some (nval nd))
+    | None => Ok None
+    end.
+  Definition fm_remove (key : K) (m : hmap) : res (hmap * option V) :=
+    match fm_find key m with
+    | None => Ok (m, None)
+    | Some i =>
+        nd <- sget i (hnodes m) ;;
+        ns <- sset i (mknode kdflt vdflt false (hfree m)) (hnodes m) ;;
+        Ok (mkhm (hbuckets m) ns (hsize m - 1) (Some i), Some (nval nd))
+    end.
+  Fixpoint fm_pairs_erase_loop (pred : K -> V -> bool) (fuel : nat) (it : option nat) (m : hmap)
+    : res (list (K * V) * hmap) :=
+    match fuel with
+    | 0 => Trap TrapFuel
+    | S f =>
+        match hm_iter_next it m with
+        | None => Ok ([], m)
+        | Some (i, nd) =>
+            m1 <- (if pred (nkey nd) (nval nd) then p <- fm_remove (nkey nd) m ;; Ok (fst p) else Ok m) ;;
+            r <- fm_pairs_erase_loop pred f (Some i) m1 ;;
+            Ok ((nkey nd, nval nd) :: fst r, snd r)
+        end
+    end.
+  Definition fm_step (o : hop) (m : hmap) : res (hmap * hret) :=
+    match o with
+    | HSet k v => m' <- fm_set k v m ;; Ok (m', HUnit)
+    | HGet k => p <- fm_get k m ;; Ok (fst p, HVal (snd p))
+    | HPeek k => r <- fm_peek k m ;; Ok (m, HOpt r)
+    | HHas k => r <- fm_peek k m ;; Ok (m, HBool (match r with Some _ => true | None => false end))
+    | HHasGet k => r <- fm_peek k m ;;
+                   Ok (m, match r with Some v => HBoolVal true v | None => HBoolVal false vdflt end)
+    | HRemove k => p <- fm_remove k m ;;
+                   Ok (fst p, HVal (match snd p with Some v => v | None => vdflt end))
+    | HErase k => p <- fm_remove k m ;;
+                  Ok (fst p, HBool (match snd p with Some _ => true | None => false end))
+    | HClear => Ok (hm_clear m, HUnit)
+    | HReserve n => m' <- fm_reserve n m ;; Ok (m', HUnit)
+    | HRehash n => m' <- fm_rehash n m ;; Ok (m', HUnit)
+    | HIterErase p => r <- fm_pairs_erase_loop p (S (length (hnodes m))) None m ;; Ok (snd r, HList (fst r))
+    | HPairs => r <- hm_pairs m ;; Ok (m, HList r)
+    | HMapVals f => Ok (hm_mapvals f m, HUnit)
+    | HDestroy => Ok (hm_empty, HUnit)
+    end.
+
   (* ---- a refusing allocator.  rehash reallocates the node array (xspanrealloc0) and then the bucket array
      (xspanrealloc); a refused request panics ('out of memory').  [hm_rehash_sizes] are the two requested sizes;
      [okn]/[okb] tell whether a request for that many nodes / buckets is granted. *)
@@ -1190,6 +1300,18 @@ Section Span.
     match nth_error s i with Some x => Ok x | None => Trap TrapIndex end.
   Definition span_sub (i j : nat) (s : list T) : res (list T) :=
     if (i <=? length s) && (j <=? length s) && (i <=? j) then Ok (firstn (j - i) (skipn i s)) else Trap TrapIndex.
+  (* the two functions above are the SPECIFICATION (a span seen as the list of its elements).  The implementation
+     is a fat pointer into some storage [mem]: (offset of data, size); s[i] is check(i < size) followed by the raw
+     access &data[i] (TrapMem when outside the storage), sub is the check followed by pointer arithmetic. *)
+  Record spanw := mkspan { sp_off : nat; sp_size : nat }.
+  Definition sp_view (mem : list T) (s : spanw) : list T := firstn (sp_size s) (skipn (sp_off s) mem).
+  Definition spw_at (i : nat) (mem : list T) (s : spanw) : res T :=
+    if i <? sp_size s then sget (sp_off s + i) mem else Trap TrapIndex.
+  Definition spw_sub (i j : nat) (s : spanw) : res spanw :=
+    if (i <=? sp_size s) && (j <=? sp_size s) && (i <=? j) then
+      if sp_size s =? 0 then Ok (mkspan 0 0)            (* return (@spanT){} *)
+      else Ok (mkspan (sp_off s + i) (j - i))           (* {data=&self.data[i], size=j-i} *)
+    else Trap TrapIndex.
 End Span.
 
 (* ------------------------------------------------------------------ stringbuilder.nelua *)
@@ -1407,6 +1529,25 @@ Section Hash.
   Definition lhash (data : list Z) (seed step : Z) : Z :=
     let len := Z.of_nat (length data) in
     lhash_loop (S (length data)) data len (Z.lxor seed len) step.
+  (* the same loop with nothing defaulted: None when the fuel runs out or when data[len - 1] lies outside the
+     data.  ProofsHash.lhash_total: for step >= 1 it always answers, and answers [lhash] - so neither the fuel
+     bound nor the default of [nth] above is ever used. *)
+  Fixpoint lhash_loop_o (fuel : nat) (data : list Z) (len seed step : Z) : option Z :=
+    match fuel with
+    | O => None
+    | S f =>
+        if len >=? step then
+          match nth_error data (Z.to_nat (len - 1)) with
+          | None => None
+          | Some b =>
+              let seed' := Z.lxor seed (w64 (w64 (Z.shiftl seed 5) + Z.shiftr seed 2 + b)) in
+              lhash_loop_o f data (len - step) seed' step
+          end
+        else Some seed
+    end.
+  Definition lhash_o (data : list Z) (seed step : Z) : option Z :=
+    let len := Z.of_nat (length data) in
+    lhash_loop_o (S (length data)) data len (Z.lxor seed len) step.
   Definition hash_short (data : list Z) : Z := lhash data HASH_SEED 1.
   Definition hash_long (data : list Z) : Z :=
     lhash data HASH_SEED (Z.shiftr (Z.of_nat (length data)) 5 + 1).
